@@ -23,12 +23,12 @@ CHECKS = {
    note='Re-exports through import chains or aliases are outside the quantifier and accepted at either location. Links are checked through the real linker objects on the model, not by crawling rendered pages.', ref='DESIGN.md 3/C07'),
  'C01': dict(cat='fault_enumeration', tech='deterministic simulation with fault injection: simulated-disk damage of source files x module schedules, full CLI runs',
    text='Containment part of C01. The real CLI entry point (options, model build, HTML, search index, inventory) runs in a forked child on generated multi-module worlds and on copies of the maintainers test packages after a simulated disk damaged one or two source files (torn, zero-filled tail, bit flips, lost, duplicated block, misdirected write, garbage, NUL bytes, cut inside a UTF-8 sequence), under a seeded processing schedule so that a broken module is reached at top level or on demand from inside another analysis. Oracle: main returns 0, 2 or 3, never raises or hangs; every analysed file that no longer parses is named at the start of a message; the summary, search and inventory files exist; and, when all damage is unparsable, every definition of every undamaged module is documented exactly once and appears on its page. Thorough tier enumerates every truncation offset of small files.',
-   note='The "for all source trees" half of the quantifier is input space and only sampled. I/O errors are not injected (not promised). Two aborts found on valid-but-unusual inputs were repaired in /repo.', ref='DESIGN.md 3/C01'),
+   note='The "for all source trees" half of the quantifier is input space and only sampled. I/O errors are not injected (not promised). Three aborts found on valid-but-unusual inputs were repaired in /repo.', ref='DESIGN.md 3/C01'),
  'C08': dict(cat='fault_enumeration', tech='deterministic simulation with fault injection: exceptions raised at seeded instants inside guarded parser/renderer extents via sys.monitoring, fault-free twin comparison',
-   text='Containment part of C08. Full driver.main runs (own process each) on generated projects whose docstrings carry real markup in each docformat (epytext, restructuredtext, google, numpy, plaintext; process-types on/off). A fault-free twin records every guarded extent (parser callee of parse_docstring, to_stan callee of safe_to_stan, the calls inside the try of get_summary) with its number of function entries; each fault run then raises one exception (10 classes incl. RecursionError, MemoryError) at a drawn (operation, call, event) inside an extent, in pydoctor, docutils, twisted or stdlib frames alike. Oracle: the run completes with status 0/2/3; when the failure reaches the guard it is reported against the object (parse_errors, message naming its file, status 2/3) and the page shows the complete docstring text; every output file outside the pages that show the target and outside the summary/search/inventory files is byte-identical to the twin; registered objects and reports for other objects are unchanged. A fault-free batch plants fatal epytext and recoverable reST errors and checks report + plain-text fallback.',
+   text='Containment part of C08. Full driver.main runs (own process each) on generated projects whose docstrings carry real markup in each docformat (epytext, restructuredtext, google, numpy, plaintext; process-types on/off). A fault-free twin records every guarded extent (parser callee of parse_docstring, to_stan callee of safe_to_stan, the calls inside the try of get_summary) with its number of function entries; each fault run then raises one exception (19 classes incl. RecursionError, MemoryError, ImportError, StopIteration) at a drawn (operation, call, event) inside an extent, in pydoctor, docutils, twisted or stdlib frames alike. Oracle: the run completes with status 0/2/3; when the failure reaches the guard it is reported against the object (parse_errors, message naming its file, status 2/3) and the page shows the complete docstring text; every output file outside the pages that show the target and outside the summary/search/inventory files is byte-identical to the twin; registered objects and reports for other objects are unchanged. A fault-free batch plants fatal epytext and recoverable reST errors and checks report + plain-text fallback. In the fault-free twin itself the text of every docstring must reach the page of its object (rendered or as plain text), and a twin that does not finish within 100 s of wall-clock twice in a row is reported as not terminating.',
    note='The "for all strings" half of the quantifier is input space and not claimed. Only the operations pydoctor guards are injected. One escape (docutils turning a settings failure into sys.exit, reproducible with a malformed ./docutils.conf) was repaired in /repo.', ref='DESIGN.md 3/C08'),
  'C17': dict(cat='fault_enumeration', tech='deterministic simulation with fault injection: two-party producer / simulated network / consumer run with seeded transfer and line faults, plus Sphinx as third reader',
-   text='Core claim. Producer: real pydoctor documents a generated project (hidden/private objects, re-exports, nested classes, duplicates) and writes objects.inv. Network: a simulated urllib3 pool under the real requests + CacheControl + FileCache stack serves those bytes, or synthetic inventories (names with spaces, $ shorthand, non-Python domains), under a seeded fault plan: connection drop, timeout, HTTP error pages, empty body, truncation, reset or short Content-Length mid-body, bit flips, wrong compression, damaged header, 1-byte reads, transport gzip, garbage, non-UTF-8 bytes, and 1-3 line-level faults from 16 mangling operators, with an empty, corrupt or disabled cache and optional second runs. Consumer: driver.get_system (or main) with --intersphinx. Oracle: never raises; a transfer unusable as a whole (decided by the harness on the bytes delivered) is reported in section sphinx; every untouched py: line resolves through getLink to base/location with $ expanded. Round trip: names and locations read by pydoctor and by Sphinx InventoryFile equal the visible reachable objects, each page and anchor exists. Thorough tier enumerates every truncation offset and header/zlib-prefix bit flips of small inventories.',
+   text='Core claim. Producer: real pydoctor documents a generated project (hidden/private objects, re-exports, nested classes, duplicates) and writes objects.inv. Network: a simulated urllib3 pool under the real requests + CacheControl + FileCache stack serves those bytes, or synthetic inventories (names with spaces, $ shorthand, non-Python domains), under a seeded fault plan: connection drop, timeout, HTTP error pages, empty body, truncation, reset or short Content-Length mid-body, bit flips, wrong compression, damaged header, 1-byte reads, transport gzip, garbage, non-UTF-8 bytes, and 1-3 line-level faults from 16 mangling operators, with an empty, corrupt or disabled cache and optional second runs. Consumer: driver.get_system (or main) with --intersphinx. Oracle: never raises; a transfer unusable as a whole (decided by the harness on the bytes delivered) is reported in section sphinx; every untouched py: line resolves through getLink to base/location with $ expanded, and through the linker of the consumer (link_to) to the same URL, also when the consumer is a package that shares its top-level name with entries of the inventory. Round trip: names and locations read by pydoctor and by Sphinx InventoryFile equal the visible reachable objects, each page and anchor exists. Thorough tier enumerates every truncation offset and header/zlib-prefix bit flips of small inventories.',
    note='Cache expiry is outside the statement and not judged. One abort (IndexError on a line cut after the priority column) was repaired in /repo.', ref='DESIGN.md 3/C17'),
  'C18': dict(cat='exploration', tech='deterministic simulation: seeded hash seed / directory-listing order / clock / output-history variants of full runs, byte comparison of output trees',
    text='Core claim. Each world (generated multi-root projects and copies of the maintainers\' test packages, with swarm-chosen options) is rendered by the real CLI entry point in a fresh interpreter per run: a reference run (hash seed 0, natural listing, clock T0, empty output directory) and variants that change one dimension at a time (PYTHONHASHSEED, per-directory listing permutation incl. pydoctor\'s own theme/extension directories, simulated now 1970-2100 + time zone, re-run into a directory holding a previous result made under the same or another seed) and then all at once; sources, options and build time (SOURCE_DATE_EPOCH or --buildtime) are equal. Oracle: same paths, same bytes, same symlink targets.',
